@@ -14,6 +14,7 @@ Step ==
          [] e.ev = "RetimeSkip" -> RetimeSkipOK(e.m1, e.m2)
          [] e.ev = "MeatGiven" -> GivenOK(e.m1, e.g)
          [] e.ev = "Charged" -> ChargedOK(e.b2, e.f2, e.cb, e.cf)
+         [] e.ev = "Harvest" -> HarvestOK(e.c1, e.c)
          [] e.ev = "Running" -> RunningOK(e.meat, e.running)
          [] e.ev = "Bump" -> BumpOK(e.b, e.f, e.maxB, e.maxF, e.b2, e.f2, e.dom)
   /\ l' = l + 1 /\ UNCHANGED tid
